@@ -3,8 +3,10 @@
 package stats
 
 import (
+	"reflect"
 	"sync/atomic"
 	"time"
+	"unsafe"
 
 	"github.com/thushan/olla/internal/core/ports"
 )
@@ -32,4 +34,37 @@ func VerifAge(sc ports.StatsCollector, d time.Duration) {
 		atomic.AddInt64(&data.lastUsed, -int64(d))
 		return true
 	})
+}
+
+// VerifEntryRef returns the per-endpoint record the collector's READERS (GetConnectionStats / GetEndpointStats range
+// over the same map) currently hold under url, as an opaque reference: two references are equal exactly when they are
+// the same record, so a harness can tell "the counters restarted because the clean-up pass dropped the idle record and
+// a new one was started" from "the counters of the same record changed".  Holding the reference keeps the old record
+// alive, so its address cannot be handed to a new one.  ok=false: the collector has no field of that name / shape any
+// more (the harness then falls back to comparing numbers).  Looked up by field name through reflection, so a rename of
+// anything else in the collector does not break the build.
+func VerifEntryRef(sc ports.StatsCollector, url string) (ref any, ok bool) {
+	c, isC := sc.(*Collector)
+	if !isC || c == nil {
+		return nil, false
+	}
+	f := reflect.ValueOf(c).Elem().FieldByName("endpoints")
+	if !f.IsValid() {
+		return nil, false
+	}
+	f = reflect.NewAt(f.Type(), unsafe.Pointer(f.UnsafeAddr())).Elem() // readable although unexported
+	if f.Kind() != reflect.Pointer {
+		f = f.Addr() // a map held by value: its methods have pointer receivers
+	} else if f.IsNil() {
+		return nil, false
+	}
+	load := f.MethodByName("Load")
+	if !load.IsValid() || load.Type().NumIn() != 1 || load.Type().In(0).Kind() != reflect.String || load.Type().NumOut() != 2 {
+		return nil, false
+	}
+	out := load.Call([]reflect.Value{reflect.ValueOf(url)})
+	if !out[1].Bool() {
+		return nil, true
+	}
+	return out[0].Interface(), true
 }
